@@ -24,6 +24,11 @@ pub async fn on_did_change_watched_files(
         match file_type {
             Some(WatchedFileType::Lua) => {
                 if file_event.typ == FileChangeType::DELETED {
+                    // a document that is open in the editor keeps its editor text, as in the
+                    // CREATED/CHANGED branch below; didClose removes it if it is still missing
+                    if workspace.is_open_file(&file_event.uri) {
+                        continue;
+                    }
                     analysis.remove_file_by_uri(&file_event.uri);
                     if !lsp_features.supports_pull_diagnostic() {
                         context
